@@ -492,6 +492,15 @@ fn parse_unknown_taggedstruct(
             tsitems.insert(tag.to_string(), vec![]);
         }
         tsitems.get_mut(tag).unwrap().push(taggeditem);
+
+        // comments between the items are not preserved and must not end the taggedstruct
+        while let Some(A2lToken {
+            ttype: A2lTokenType::Comment,
+            ..
+        }) = parser.peek_token()
+        {
+            parser.get_token(context)?;
+        }
     }
 
     // There shouldn't be an unused /begin token after the loop has run. If there is, then this indicates that the file is damaged
